@@ -288,6 +288,8 @@ def bounded_masks_instance():
         s = rng.normal(size=shape) + 1j * rng.normal(size=shape)
         if inp['ties']:
             s = np.round(s.real) + 1j * np.round(s.imag)
+        if inp['seed'] % 3 == 1:
+            s = s.astype(np.complex64)              # single-precision STFTs
         res = {'fn': fn, 's': s}
         if fn in ('binary', 'wiener'):
             src = rng.randint(0, rank)
@@ -364,6 +366,8 @@ def bounded_masks_instance():
             return
         if fn in ('binary', 'wiener'):
             src, sen, keep = out['src'], out['sen'], out['keep']
+            single = s.dtype == np.complex64
+            s = s.astype(np.complex128)
             P = s.real ** 2 + s.imag ** 2          # exact on integer-valued ties (np.abs()**2 rounds)
             if sen is not None:
                 P = P.sum(sen, keepdims=True)
@@ -374,15 +378,29 @@ def bounded_masks_instance():
                 exp = P / (P.sum(srcp, keepdims=True) + EPS)
             if sen is not None and not keep:
                 exp = np.squeeze(exp, sen)
-            yield 'matches-definition[%s]' % fn, bool(exp.shape == o.shape and np.allclose(o, exp, rtol=1e-9, atol=1e-12))
+            tol_ = dict(rtol=1e-4, atol=1e-6) if single else dict(rtol=1e-9, atol=1e-12)
+            if single and fn == 'binary' and not inp['ties']:
+                # single precision may order two nearly equal powers differently: compare where the winner is clear
+                srt = np.sort(P, axis=srcp)
+                clear = (srt.take(-1, axis=srcp) > srt.take(-2, axis=srcp) * (1 + 1e-4)) if P.shape[srcp] > 1 else np.ones(srt.take(-1, axis=srcp).shape, bool)
+                clear = np.expand_dims(clear, srcp)
+                if sen is not None and not keep:
+                    clear = np.squeeze(clear, sen)
+                clear = np.broadcast_to(clear, exp.shape) if clear.shape != exp.shape and exp.shape == o.shape else clear
+                yield 'matches-definition[%s]' % fn, bool(exp.shape == o.shape and np.isrealobj(o) and np.allclose(np.where(clear, o, exp), exp, **tol_))
+            else:
+                yield 'matches-definition[%s]' % fn, bool(exp.shape == o.shape and np.isrealobj(o) and np.allclose(o, exp, **tol_))
         elif fn in ('ratio', 'amplitude', 'complex', 'phase'):
+            single = s.dtype == np.complex64
+            s = s.astype(np.complex128)
             srcp = out['src'] % s.ndim
             y = s.sum(srcp, keepdims=True)
             with np.errstate(all='ignore'):
                 exp = {'ratio': np.abs(s) / (np.abs(s).sum(srcp, keepdims=True) + EPS), 'amplitude': np.abs(s) / (np.abs(y) + EPS),
                        'complex': s / y, 'phase': np.real(s * np.conj(y)) / (np.abs(y) * (np.abs(y) + EPS))}[fn]
             ok = np.isfinite(exp)
-            yield 'matches-definition[%s]' % fn, bool(exp.shape == o.shape and np.allclose(o[ok], exp[ok], rtol=1e-7, atol=1e-10))
+            tol_ = dict(rtol=2e-3, atol=1e-5) if single else dict(rtol=1e-7, atol=1e-10)
+            yield 'matches-definition[%s]' % fn, bool(exp.shape == o.shape and np.allclose(o[ok], exp[ok], **tol_))
         elif fn == 'lorenz-options':
             # loop-level transcription of the definition: per independent index, points strictly stronger than the weakest of
             # the strongest points whose cumulative share of the (sensor-pooled) power stays below the fraction
